@@ -4,7 +4,7 @@ import string
 
 from ..core import World, Violation, Skip, SimCrash
 from ..seams import SimFS, SimClock, REAL_OPEN
-from ..filekit import FileKit, gen_alloc
+from ..filekit import FileKit, gen_alloc, side_stream
 
 SYMBOLS = ['H', 'C', 'O', 'N', 'S', 'F', 'B', 'K', 'P', 'I', 'U', 'W', 'V', 'Y',
            'He', 'Li', 'Ne', 'Na', 'Mg', 'Al', 'Si', 'Cl', 'Ar', 'Ca', 'Fe', 'Ni', 'Cu', 'Pt', 'Pd', 'Ru', 'Ag', 'Au']
@@ -48,7 +48,7 @@ class WorldC05(World):
               'name-starts-with-digit', 'zero-count-entry', 'dict-input', 'tuple-read', 'dict-read', 'crlf-newline',
               'supp-data', 'supp-txt', 'supp-record-shares-a-name', 'second-generation', 'rewrite-after-in-place-edit', 'cross-encoding-read-refused', 'non-ascii-name', 'same-length-overwrite',
               'persistent-fault', 'no-date', 'extreme-coefficients', 'zero-coefficient', '>=50-species',
-              'clock-jump-before-write', 'fault-did-not-fire', 'comment-with-keyword', 'two-letter-three-digit', 'recovery-after-fault', 'alloc-failure-signalled', 'alloc-failure-over-existing-file')
+              'clock-jump-before-write', 'fault-did-not-fire', 'comment-with-keyword', 'two-letter-three-digit', 'recovery-after-fault', 'read-of-padded-file', 'alloc-failure-signalled', 'alloc-failure-over-existing-file')
     REAL = ('pmutt.io.thermdat.write_thermdat / read_thermdat and helpers', 'pmutt.empirical.nasa.Nasa')
     SIMULATED = ('disk: SimFS shim over a scratch directory (open/write/close errors, ENOSPC after k chars, crash at '
                  'pre_open/post_open/mid_write/pre_close, read-open and mid-read errors)',
@@ -102,6 +102,7 @@ class WorldC05(World):
         self.failed_last = set()
         self.history = []    # (step, path, 'ack'|'fail')
         self.ack_text = {}   # path -> durable text when the write was acknowledged
+        self.padded = set()  # paths whose records were padded with blanks since they were written
         self.plan = []
         self.shape = {}      # path -> layout options and species count of the last acknowledged write
         self.last = None     # (descriptors, live Nasa objects) of the most recent write call
@@ -202,6 +203,13 @@ class WorldC05(World):
     def gen_op(self, rng):
         if self.plan:
             return self.plan.pop(0)
+        side = side_stream(rng)
+        okp = sorted(p_ for p_, r_ in self.ref.items() if r_[0] == 'ok' and p_ in self.ack_text)
+        if okp and side.random() < 0.04:
+            # a tool between the writer and the reader pads the fixed-column records with trailing blanks (card images of 84
+            # or 132 columns, an editor that leaves a blank behind): still the same Chemkin layout, the same species
+            return {'c': 0, 'op': 'pad', 'gc': True, 'args': {'path': side.choice(okp), 'i': side.randrange(400),
+                                                             'mode': side.choice(['all84', 'all132', 'one', 'records', 'single'])}}
         op = self._gen_op0(rng)
         if op['op'] == 'write' and op.get('fault') is None and rng.random() < 0.05:
             # scripted: the disk fills up half-way through a write; the caller frees space and writes the same thing again;
@@ -558,10 +566,49 @@ class WorldC05(World):
                     self.last = (a['species'], self._objs_used)
         if name == 'read':
             return self._op_read(a, op.get('fault'))
+        if name == 'pad':
+            return self._op_pad(a)
         raise Skip()
 
     def run(self, fn, fault=None):
         return self._with_seams(fn, fault)
+
+    def _op_pad(self, a):
+        fs, path = self.fs, a['path']
+        if self.ref.get(path, ('x',))[0] != 'ok' or path not in self.ack_text or fs.durable(path) != self.ack_text[path]:
+            raise Skip()
+        text = self.ack_text[path]
+        sep = '\r\n' if '\r\n' in text else ('\r' if '\r' in text else '\n')
+        lines = text.split(sep)
+        rec = [i for i, ln in enumerate(lines) if len(ln) == 80 and ln[79] in '1234']
+        if not rec:
+            raise Skip()
+        mode = a['mode']
+        if mode in ('all84', 'all132'):
+            w = int(mode[3:])
+            lines = [ln.ljust(w) if ln else ln for ln in lines]
+        elif mode == 'one':
+            lines = [ln + ' ' if ln else ln for ln in lines]
+        elif mode == 'records':
+            for i in rec:
+                lines[i] += '    '
+        else:
+            first = [i for i in rec if lines[i][79] == '1']
+            if not first:
+                raise Skip()
+            i = first[a['i'] % len(first)]
+            lines[i] += ' '
+        new = sep.join(lines)
+        with REAL_OPEN(fs.path(path), 'wb') as f:
+            f.write(new.encode(fs.enc.get(fs.path(path), 'utf-8'), 'replace'))
+        if fs.durable(path) != new:
+            raise Skip()
+        fs.stamp(fs.path(path))
+        self.ack_text[path] = new
+        self.shape[path] = None
+        self.padded.add(path)
+        self.ctx.faults['records_padded_with_blanks'] += 1
+        return 'padded (%s)' % mode
 
     def _with_seams(self, fn, fault):
         fs = self.fs
@@ -638,6 +685,7 @@ class WorldC05(World):
     def _op_write(self, a, fault):
         ctx, fs = self.ctx, self.fs
         path = a['path']
+        self.padded.discard(path)
         before = fs.durable(path)
         prev = self.ref.get(path)
         if prev and prev[0] == 'ok':
@@ -781,10 +829,15 @@ class WorldC05(World):
             return 'torn: not judged'
         if self._refused_ok(st, 'read %s' % path):
             return 'refused (encoding)'
+        if path in self.padded and st == 'ok' and val[0] == 'exc':
+            self.ctx.probe('padded-file-refused')          # loudly: allowed; silently reading something else is not
+            return 'padded file refused'
         if st != 'ok' or val[0] != 'value':
             e = val if st != 'ok' else val[1]
             raise Violation('op-must-succeed', 'reading the acknowledged file %s raised %s: %s' % (
                 path, type(e).__name__, str(e)[:200]))
+        if path in self.padded:
+            self.ctx.probe('read-of-padded-file')
         self._check_read(val[1], state[1], a['format'], 'read %s' % path)
         return 'read %d' % len(state[1])
 
